@@ -675,6 +675,11 @@ func runCrash(w *vh.W, c *jcase) {
 		return
 	}
 	tmpName := "000000001-000000001.tombstone.tmp"
+	if _, err := os.Stat(filepath.Join(s2, tmpName)); err != nil {
+		w.Fail(w.Len(), "tombstone commit: at the FileFinishing point (before the rename) there is no complete .tombstone.tmp next to the old tombstone file", "")
+		w.Add("CCrash [] [] 0 0 0 (Some [])", c, false, "")
+		return
+	}
 	var crashDir string
 	cut := uint64(0)
 	switch {
@@ -692,9 +697,6 @@ func runCrash(w *vh.W, c *jcase) {
 		crashDir = s2
 	default:
 		crashDir = s4
-	}
-	if _, err := os.Stat(filepath.Join(s2, tmpName)); err != nil {
-		w.Fail(w.Len(), "no .tombstone.tmp at the FileFinishing point", "")
 	}
 	if !c.NoRecov { // Engine.cleanup: remove every *.tmp
 		tmps, _ := filepath.Glob(filepath.Join(crashDir, "*."+tsm1.CompactionTempExtension))
@@ -1037,6 +1039,41 @@ func (g gen) idxCase(seekPast bool) jcase {
 	if seekPast {
 		c.Ops = append(c.Ops, jop{Op: "Seek", Key: names[len(names)-1] + "0"}, jop{Op: "Seek", Key: "~~~"})
 		return c
+	}
+	if g.n(4) == 0 { // cover one key piecewise: the coalescing window and its gaps
+		k := keys[g.n(len(keys))]
+		first, lastB := k.Blocks[0][0], k.Blocks[len(k.Blocks)-1]
+		last := lastB[len(lastB)-1]
+		if first > math.MinInt64 && last < math.MaxInt64 && last-first < 1000 {
+			type piece struct{ lo, hi int64 }
+			var ps []piece
+			lo := first - int64(g.n(2))
+			var gaps []int64
+			for lo <= last {
+				hi := lo + int64(g.n(5))
+				if hi >= last || g.n(4) == 0 {
+					hi = last + int64(g.n(2))
+				}
+				ps = append(ps, piece{lo, hi})
+				lo = hi + 1
+				if g.n(3) == 0 && lo <= last { // leave a one-point gap
+					gaps = append(gaps, lo)
+					lo++
+				}
+			}
+			g.w.Rng.Shuffle(len(ps), func(i, j int) { ps[i], ps[j] = ps[j], ps[i] })
+			for i, pc := range ps {
+				c.Ops = append(c.Ops, jop{Op: "DeleteRange", Keys: []string{k.Key}, Lo: pc.lo, Hi: pc.hi})
+				if i == len(ps)-1 || g.n(3) == 0 {
+					c.Ops = append(c.Ops, jop{Op: "Contains", Key: k.Key}, jop{Op: "ReadAll", Key: k.Key}, jop{Op: "TombRange", Key: k.Key})
+					for _, gp := range gaps {
+						c.Ops = append(c.Ops, jop{Op: "ContainsValue", Key: k.Key, T: gp})
+					}
+				}
+			}
+			c.Ops = append(c.Ops, jop{Op: "KeyCount"}, jop{Op: "Reopen"}, jop{Op: "Contains", Key: k.Key}, jop{Op: "ReadAll", Key: k.Key}, jop{Op: "KeyCount"}, jop{Op: "TombFile"})
+			return c
+		}
 	}
 	nm := g.n(5)
 	var lastHi int64
